@@ -105,11 +105,13 @@ def _check_pair_on(ea, eb, LO, HI, spanb):
         else:
             for g, (_, _, c) in zip(ugot, exp):
                 labs = g[2].split("-")
-                bylab = {p[2]: p for p in c}
-                if sorted(labs) != sorted(bylab):
-                    msg = f"union label {g[2]!r} is not exactly the fused labels {sorted(bylab)}"
+                bylab = {}      # label -> the starts of the entries carrying it (a label may occur in both operands), earliest first
+                for p in sorted(c):
+                    bylab.setdefault(p[2], []).append(p[0])
+                if sorted(labs) != sorted(p[2] for p in c):
+                    msg = f"union label {g[2]!r} is not exactly the fused labels {sorted(p[2] for p in c)}"
                     break
-                starts = [bylab[l][0] for l in labs]
+                starts = [bylab[l].pop(0) for l in labs]
                 if starts != sorted(starts):
                     msg = f"union label {g[2]!r} is not in time order"
                     break
